@@ -19,13 +19,15 @@ def write_fil(path, data, nbits, fch1=1500.0, foff=-1.0, tsamp=0.001, tstart=600
     return path
 
 
-def write_fil_set(base, data, nbits, splits, tsamp=0.001, tstart=60000.0, **kw):
-    """split data (nsamps, nchans) into contiguous files at sample indices `splits`; returns the list of paths"""
+def write_fil_set(base, data, nbits, splits, tsamp=0.001, tstart=60000.0, vary_header=False, **kw):
+    """split data (nsamps, nchans) into contiguous files at sample indices `splits`; returns the list of paths.
+    vary_header: give every file a `rawdatafile` of a different length, so that the headers of the set differ in byte length"""
     bounds = [0] + list(splits) + [data.shape[0]]
     paths = []
     for i in range(len(bounds) - 1):
         a, b = bounds[i], bounds[i + 1]
         p = f"{base}_{i}.fil"
-        write_fil(p, data[a:b], nbits, tsamp=tsamp, tstart=tstart + a * tsamp / 86400.0, **kw)
+        extra = dict(kw, rawdatafile="r" * (3 + 7 * i)) if vary_header else kw
+        write_fil(p, data[a:b], nbits, tsamp=tsamp, tstart=tstart + a * tsamp / 86400.0, **extra)
         paths.append(p)
     return paths
